@@ -1,4 +1,5 @@
-# ./check selftest [binding] [reverts]
+# ./check selftest [binding] [reverts] [seeds [<Sxx>|<Cxx> ...]]
+#   seeds:   every kept seeded change and hand-made mutant, applied to a scratch copy of the headers, must make its property's quick check report a VIOLATION
 #   binding: for every abstract trace specification, record a small execution of the unchanged tree, check it is accepted, then
 #            (a) corrupt one recorded field, (b) drop one record - both must be rejected (the specification is bound to what is recorded)
 #   reverts: for every `fix:` commit of /repo, revert it alone in a scratch copy of the headers and require the owning check to report a
@@ -91,6 +92,45 @@ def reverts():
     return bad
 
 
+def _run_patched(patch_text, pid, strip_R=False):
+    d = tempfile.mkdtemp(prefix="seed-", dir="/var/tmp")
+    try:
+        shutil.copytree(os.path.join(REPO, "include"), os.path.join(d, "include"))
+        p = subprocess.run(["patch", "-p1", "-s", "-F3"], input=patch_text, text=True, cwd=d, capture_output=True)
+        if p.returncode != 0:
+            return None, "patch does not apply: " + (p.stdout + p.stderr)[-300:]
+        env = dict(os.environ)
+        env["VERIF_REPO"] = d
+        r = subprocess.run([os.path.join(VERIF, "check"), pid, "quick"], env=env, capture_output=True, text=True)
+        return (r.returncode == 1 and "VIOLATION property=%s" % pid in r.stdout), "exit %d" % r.returncode
+    finally:
+        shutil.rmtree(d, ignore_errors=True)
+
+
+def seeds(only=()):
+    """every kept seeded change (seeded/*/patch.diff, written by sub-agents) and every hand-made mutant (lib/mutants/*.diff) must make the
+    quick check of the property it breaks report a VIOLATION"""
+    import glob
+    bad = 0
+    items = []
+    for mdir in sorted(glob.glob(os.path.join(VERIF, "seeded", "S*"))):
+        meta = json.load(open(os.path.join(mdir, "meta.json")))
+        items.append((os.path.basename(mdir), meta["breaks_property"], os.path.join(mdir, "patch.diff")))
+    mj = os.path.join(VERIF, "lib", "mutants", "mutants.json")
+    if os.path.exists(mj):
+        for name, m in sorted(json.load(open(mj)).items()):
+            items.append((name, m["property"], os.path.join(VERIF, "lib", "mutants", name + ".diff")))
+    for name, pid, patch in items:
+        if only and not any(name.startswith(o) or pid == o for o in only):
+            continue
+        caught, note = _run_patched(open(patch).read(), pid)
+        print("selftest seeds: %s -> %s quick %s, violation reported: %s" % (name, pid, note, caught))
+        sys.stdout.flush()
+        if not caught:
+            bad += 1
+    return bad
+
+
 def main(args):
     what = args or ["binding"]
     bad = 0
@@ -98,5 +138,7 @@ def main(args):
         bad += binding()
     if "reverts" in what:
         bad += reverts()
+    if "seeds" in what:
+        bad += seeds([a for a in what if a != "seeds"])
     print("selftest: %s" % ("ok" if bad == 0 else "%d problems" % bad))
     return 0 if bad == 0 else 1
